@@ -70,6 +70,33 @@ def gen_case(rng, depth):
     return {"type": t, "value": v, "prep": prep, "seed": rng.randrange(1 << 30)}
 
 
+def systematic_cases(rng):
+    """(a) paths through three and four nested arrays; (b) types that share their generated NAME but not their
+    layout (same shape in another axis order; a struct re-defined with other fields), translated and executed one
+    after the other in ONE process: anything remembered per name must not leak from one to the other"""
+    F64 = {"k": "scalar", "name": "Float64"}; I32 = {"k": "scalar", "name": "Int32"}; I64 = {"k": "scalar", "name": "Int64"}
+    arr = lambda item, shape, order=None: {"k": "array", "item": item, "shape": shape, "order": order or list(range(len(shape)))}
+    st = lambda name, fields: {"k": "struct", "name": name, "fields": fields}
+    types = [
+        arr(arr(arr(F64, [2]), [3]), [4]),
+        arr(arr(arr(I32, [None]), [None]), [None]),
+        arr(arr(arr(arr(I32, [2]), [None]), [2]), [None]),
+        arr(st("SRow", [["k", I64], ["cells", arr(st("SCell", [["w", arr(F64, [None])], ["q", I32]]), [None])]]), [None]),
+        arr(I32, [3, 4]), arr(I32, [3, 4], [1, 0]),
+        arr(F64, [None, None]), arr(F64, [None, None], [1, 0]),
+        arr({"k": "string"}, [2, 3]), arr({"k": "string"}, [2, 3], [1, 0]),
+        arr(I32, [2, 3, 2], [0, 1, 2]), arr(I32, [2, 3, 2], [2, 0, 1]), arr(I32, [2, 3, 2], [1, 2, 0]),
+        st("Track", [["pos", arr(F64, [3])], ["charge", I64]]), st("Track", [["pos", arr(F64, [6])], ["charge", I64]]),
+        arr(st("Point", [["x", F64], ["y", F64]]), [None]), arr(st("Point", [["x", F64], ["y", F64], ["z", F64]]), [None]),
+        st("Holder", [["a", I32], ["p", arr(I64, [None])]]), st("Holder", [["a", I32], ["s", {"k": "string"}], ["p", arr(I64, [None])]]),
+    ]
+    out = []
+    for t in types:
+        v = G.gen_value(rng, t)
+        out.append({"type": t, "value": v, "prep": {"kind": "numpy", "cap": 256, "al": 8, "poison": 0xA5, "pre": [["alloc", 24]]}, "seed": rng.randrange(1 << 30)})
+    return out
+
+
 def feature(t, path):
     """what kind of access the path performs (for signatures)"""
     feats = []
@@ -123,11 +150,12 @@ def run(ctx):
     rng = random.Random(ctx.seed + 2)
     cdir = os.path.join(VERIF, "corpus", "capi")
     corpus = [json.load(open(os.path.join(cdir, f))) for f in sorted(os.listdir(cdir))] if os.path.isdir(cdir) else []
-    cases = list(corpus)
-    while len(cases) < bud["n"] + len(corpus):
+    cases = list(corpus) + systematic_cases(rng)
+    nfixed = len(cases)
+    while len(cases) < bud["n"] + nfixed:
         cases.append(gen_case(rng, bud["depth"]))
     for i, c in enumerate(cases):
-        c["exec"] = (pid in ("C02", "C07")) and (i < len(corpus) or i - len(corpus) < bud["n_exec"])
+        c["exec"] = (pid in ("C02", "C07")) and (i < nfixed or i - nfixed < bud["n_exec"])
         c["targets"] = TARGETS if pid == "C15" else ["raw"]
         c["decl_first"] = (i % 3 == 1)
     sh = (len(cases) + bud["shards"] - 1) // bud["shards"]
